@@ -130,7 +130,7 @@ def _mk(inp, selfid, members, clock, dyn):
     return o, tr, cons
 
 
-@obligation('S12', props=('C09', 'C01', 'C10', 'C06', 'C18'), quick=[dict(n=2), dict(n=3)], thorough=[dict(n=2), dict(n=3), dict(n=4), dict(n=5)], stubs=_STUBS,
+@obligation('S12', props=('C09', 'C01', 'C10', 'C06', 'C18', 'C07'), quick=[dict(n=2), dict(n=3)], thorough=[dict(n=2), dict(n=3), dict(n=4), dict(n=5)], stubs=_STUBS,
             bounds='log of n<=5 entries (first index 1..3), any applied/commit index, symbolic user state (int, list of 2, two consumers), dynamic membership on/off, commands applied between the snapshot and the trim')
 def S12(inp, n):
     """compaction captures the state at the applied position: the image holds the user attributes and every consumer as
@@ -143,6 +143,19 @@ def S12(inp, n):
     a, tr, cons = _mk(inp, 'a', ('b', 'c'), clock, dyn)
     p = so.sym_state(inp, a, now, n, role=F, term_hi=4, base_hi=3, connected=('r0',), observers=['r0'])      # a read-only peer is connected: it is no member
     put(a, 'raftElectionDeadline', now + 100)
+    pending = None
+    if dyn and inp.flag('membership_entry_above_applied'):
+        # a membership entry took effect when it was appended; it lies above the applied index and may still be truncated:
+        # the snapshot describes the applied position, so its member set must not contain that change
+        from pvf.obligations.membership import mcmd
+        so_mod.pickle = real_pickle
+        k = inp.choice('mpos', n)
+        inp.assume(p.log[k][1] > p.applied)
+        pending = (('rem', 'c'), ('add', 'd'))[inp.choice('mkind', 2)]
+        log = list(p.log)
+        log[k] = (mcmd(*pending), log[k][1], log[k][2])
+        so.set_log(a, log)
+        getattr(a, so.P + 'doChangeCluster')([pending[0], pending[1], Node(pending[1])])
     x0, i0, i1, c0 = (inp.int(k, -5, 5) for k in ('x0', 'i0', 'i1', 'c0'))
     a.x = x0
     a.items = [i0, i1]
@@ -172,6 +185,8 @@ def S12(inp, n):
     b, trb, consb = _mk(inp, 'z', ('a', 'b', 'q'), clock, dyn)      # q is not in the snapshot's member set
     get(b, 'serializer')._Serializer__inMemorySerializedData = image
     b.x, b.items = -77, ['stale']
+    tb = inp.int('loader_term', 0, 5)
+    put(b, 'raftCurrentTerm', tb); put(b, 'votedForNodeId', 'q')
     consb[0].append(-77, _doApply=True)
     _, exc2 = guard(getattr(b, so.P + 'loadDumpFile'), True)
     qb = so.post_state(b)
@@ -182,12 +197,14 @@ def S12(inp, n):
     cl['log_is_the_two_snapshot_entries'] = len(qb.log) == 2 and And(Eq(qb.log[0][1], p.applied - 1), Eq(qb.log[1][1], p.applied),
                                                                      so.has_entry(p.log, qb.log[0][1], qb.log[0][2]), so.has_entry(p.log, qb.log[1][1], qb.log[1][2]))
     if dyn:
-        cl['member_set_restored'] = set(x.id for x in b.otherNodes) == {'a', 'b', 'c'}
+        cl['member_set_restored'] = set(x.id for x in b.otherNodes) == {'a', 'b', 'c'}       # as of the applied position, whatever is pending above it
+        cl['taking_a_snapshot_leaves_own_member_set'] = set(x.id for x in a.otherNodes) == ({'b', 'c'} if pending is None else {'b'} if pending[0] == 'rem' else {'b', 'c', 'd'})
         cl['transport_registry_follows_snapshot'] = sorted((k, nd.id) for k, nd in trb.registry) == [('add', 'c'), ('drop', 'q')]
         cl['tables_follow_snapshot'] = Node('q') not in get(b, 'raftNextIndex') and Node('c') in get(b, 'raftNextIndex')
     else:
         cl['member_set_untouched_without_dynamic_membership'] = set(x.id for x in b.otherNodes) == {'a', 'b', 'q'}
-    cl['no_internal_state_leaks'] = Eq(get(b, 'raftCurrentTerm'), 0) and get(b, 'raftState') == F
+    # C07: term and vote are the node's own, a snapshot (taken by whoever, at whatever term) never replaces them
+    cl['no_internal_state_leaks'] = And(Eq(get(b, 'raftCurrentTerm'), tb), get(b, 'votedForNodeId') == 'q', get(b, 'raftState') == F)
     return Res(cl, nontrivial=True, obs=lambda: dict(dyn=dyn, bx=show(b.x), items=show(b.items), log=show(qb.log), applied=show(qb.applied),
                                                      members=sorted(x.id for x in b.otherNodes), exc=show(exc2)))
 
@@ -207,9 +224,9 @@ class HookTransport(so.RecTransport):
         return True
 
 
-@obligation('S4', props=('C09', 'C05', 'C18', 'C20'), quick=[dict(chunks=3, event='none'), dict(chunks=3, event='disconnect'), dict(chunks=3, event='disconnect', lose=True), dict(chunks=3, event='disconnect', observer=True), dict(chunks=3, event='newer')],
-            thorough=[dict(chunks=c_, event=e) for c_ in (6, 8) for e in ('none', 'disconnect', 'newer')] + [dict(chunks=6, event='disconnect', lose=True)], stubs=_STUBS + ('snapshot images are blobs of symbolic length',),
-            bounds='image length 1..200000 and chunk size 1..70000 symbolic with at most `chunks` data chunks (chunk size larger than the image included); a disconnect or a newer completed snapshot after a symbolic number of sent chunks')
+@obligation('S4', props=('C09', 'C05', 'C18', 'C20'), quick=[dict(chunks=3, event='none'), dict(chunks=3, event='disconnect'), dict(chunks=3, event='disconnect', lose=True), dict(chunks=3, event='disconnect', observer=True), dict(chunks=3, event='newer'), dict(chunks=3, event='interim')],
+            thorough=[dict(chunks=c_, event=e) for c_ in (6, 8) for e in ('none', 'disconnect', 'newer')] + [dict(chunks=6, event='disconnect', lose=True), dict(chunks=6, event='interim')], stubs=_STUBS + ('snapshot images are blobs of symbolic length',),
+            bounds='image length 1..200000 and chunk size 1..70000 symbolic with at most `chunks` data chunks (chunk size larger than the image included); a disconnect, a newer completed snapshot, or the end of the send round followed by an interim leader and the re-election of the sender, after a symbolic number of sent chunks')
 def S4(inp, chunks, event, lose=False, observer=False):
     """chunked snapshot transfer: whatever the chunk size and wherever the transfer is interrupted (disconnect and restart,
     or a newer snapshot completing on the leader), the follower installs only an image equal to one complete leader image,
@@ -260,6 +277,8 @@ def S4(inp, chunks, event, lose=False, observer=False):
     def on_hook():
         if event == 'disconnect':
             getattr(lead, so.P + ('onReadonlyNodeDisconnected' if observer else 'onNodeDisconnected'))(b)
+        elif event == 'interim':
+            clock.now = clock.now + 1          # the send round ends here (appendEntriesPeriod used up): the transfer continues next round
         else:
             # a newer snapshot completes on the leader: new image, transmissions reset (what checkSerializing does)
             ser._Serializer__inMemorySerializedData = img2
@@ -290,6 +309,14 @@ def S4(inp, chunks, event, lose=False, observer=False):
         # sending is not hearing: what the leader sent must not count as a sign of life of the receiver
         if rnd == 0 and not observer:
             sent_is_not_heard = Eq(get(lead, 'lastResponseTime')[b], heard)
+        if rnd == 0 and event == 'interim' and exc is None:
+            # the leader is deposed; an interim leader c starts its own transfer to the follower (first chunk of another image);
+            # then the old leader is elected again (term 3) and goes on serving the follower
+            _, exc = guard(getattr(fol, so.P + 'onMessageReceived'), Node('c'),
+                           {'type': 'append_entries', 'term': 2, 'commit_index': 6, 'serialized': (Blob.fresh(('image', 3), inp.int('size3', 1, 70000)), True, False)})
+            put(lead, 'raftState', F); put(lead, 'raftCurrentTerm', 3)
+            if exc is None:
+                _, exc = guard(getattr(lead, so.P + 'onBecomeLeader'))
         # the follower's answers travel back
         for nd, m in ftr.sent[fdelivered:]:
             if exc is None:
@@ -307,7 +334,8 @@ def S4(inp, chunks, event, lose=False, observer=False):
         # (entries above the snapshot may already have been sent in the same call: 6 or 7)
         nx = get(lead, 'raftNextIndex')[b]
         # a disconnect noticed right after the last chunk leaves nextIndex where it was: the transfer is simply repeated
-        cl['leader_next_index_after_snapshot'] = Or(And(nx >= 6, nx <= 7), And(event == 'disconnect', Eq(nx, 2)))
+        # (after a re-election the leader's log also holds its new no-op at 7)
+        cl['leader_next_index_after_snapshot'] = Or(And(nx >= 6, nx <= (8 if event == 'interim' else 7)), And(event == 'disconnect', Eq(nx, 2)))
     acks = [m for nd, m in ftr.sent if m['type'] == 'next_node_idx' and m['success'] is True]
     cl['success_ack_only_after_install'] = (len(acks) >= 1 and bool(Eq(acks[0]['next_node_idx'], 6))) if installed else len(acks) == 0
     return Res(cl, nontrivial=len(installed) == 1, obs=lambda: dict(event=event, after=k, sent=len(tr.sent), installed=[repr(x)[:120] for x in installed], exc=show(exc)))
@@ -325,7 +353,7 @@ def S5(inp, mode):
     disk.CUR = fs
     fs.base = {}
     ser_mod.open = disk.FakeFile
-    ser_mod.atomicReplace = disk._Os.rename
+    ser_mod.atomicReplace = disk.repo_atomic_replace()
     ser_mod.os = _OsNoFork
     try:
         s = ser_mod.Serializer('dump', 3, False, None, None, None)
@@ -461,12 +489,17 @@ def RI(inp, n):
             ser._Serializer__inMemorySerializedData = image
         return ok
     ser.setTransmissionData = set_tx
+    corrupt = inp.flag('image_cannot_be_decoded')
+    if corrupt:
+        image = Blob.fresh(('garbage',), 5)          # e.g. chunks of two different snapshots glued together
+    # the last own compaction was taken at this very position: a renewal must not be skipped as "nothing new"
+    put(o, 'lastSerializedEntry', p.applied - 1)
     # callbacks of commands this node forwarded earlier: one for a position the snapshot covers, one above it
     from pvf.obligations.apply import Rec
     rec_cov, rec_above = Rec('covered'), Rec('above')
     wc = get(o, 'commandsWaitingCommit')
     cov_idx = d - inp.choice('cb_below', 2)
-    inp.assume(And(cov_idx > p.applied, Not(Or(d <= p.commit, so.has_entry(p.log, d, dt1)))) if inp.flag('with_callback') else True)
+    inp.assume(And(cov_idx > p.applied, Not(Or(d <= p.commit, so.has_entry(p.log, d, dt1))), not corrupt) if inp.flag('with_callback') else True)
     wc[cov_idx].append((inp.int('cb_term', 0, 5), rec_cov))
     wc[d + 1].append((mterm, rec_above))
     msg = {'type': 'append_entries', 'term': mterm, 'commit_index': mci, 'serialized': (Blob(), False, True)}
@@ -480,7 +513,11 @@ def RI(inp, n):
     # the snapshot's last entry is in the local log already (within the committed prefix, or same index and term): it carries
     # nothing new, the leader acted on an outdated reply
     stale = Or(d <= p.commit, so.has_entry(p.log, d, dt1))
-    if started:
+    if started and corrupt:
+        # a snapshot that cannot be loaded installs nothing and verifies nothing: no acknowledgement, no commit advance (C02/C04)
+        cl['undecodable_snapshot_changes_nothing'] = And(so.logs_equal(p.log, q.log) if len(p.log) == len(q.log) else False, Eq(q.applied, p.applied), Eq(q.commit, p.commit), Eq(o.x, -1))
+        cl['undecodable_snapshot_not_acknowledged'] = len(acks) == 0
+    elif started:
         fresh = Not(stale)
         installed = And(len(q.log) == 2 and And(Eq(q.log[0][1], d - 1), Eq(q.log[1][1], d), Eq(q.log[0][2], dt0), Eq(q.log[1][2], dt1)), Eq(q.applied, d), Eq(o.x, xs))
         kept = And(so.logs_equal(p.log, q.log) if len(p.log) == len(q.log) else False, Eq(q.applied, p.applied), Eq(q.commit, p.commit), Eq(o.x, -1))
@@ -501,7 +538,16 @@ def RI(inp, n):
         cl['incomplete_transfer_installs_nothing'] = And(so.logs_equal(p.log, q.log) if len(p.log) == len(q.log) else False, Eq(q.applied, p.applied),
                                                          Eq(q.commit, p.commit), len(acks) == 0, Eq(o.x, -1))
     cl['follows_the_sender'] = And(q.role == F, q.leader == Node('b'), Eq(q.term, mterm))
-    return Res(cl, nontrivial=started, obs=lambda: dict(started=started, log=show(q.log), applied=show(q.applied), commit=show(q.commit), x=show(o.x), exc=show(exc)))
+    if started and exc is None:
+        # the received file replaced this node's stored snapshot.  After the next compaction attempt the stored snapshot again reaches
+        # this node's first log entry, otherwise, as a leader, it could serve neither entries nor a usable snapshot (C05)
+        _, exc_c = guard(getattr(o, so.P + 'tryLogCompaction'))
+        stored = ser._Serializer__inMemorySerializedData
+        q2 = so.post_state(o)
+        can = q.applied - 1 >= q.log[0][1]
+        usable = isinstance(stored, Token) and stored.obj[1][1] + 1 >= q2.log[0][1]
+        cl['stored_snapshot_usable_after_next_compaction'] = And(exc_c is None, Implies(can, usable))
+    return Res(cl, nontrivial=started, obs=lambda: dict(started=started, corrupt=corrupt, log=show(q.log), applied=show(q.applied), commit=show(q.commit), x=show(o.x), exc=show(exc)))
 
 
 @obligation('S7', props=('C09', 'C06'), quick=[dict()], stubs=_STUBS + ('open() / rename of the dump write fail as told (case split)',),
@@ -668,3 +714,47 @@ def PGC(inp, bl, ll, bf, lf):
                                                      replies=[(show(m['next_node_idx']), m['success'], m['reset']) for m in replies],
                                                      next=(show(nxt), show(nxt1)), match=(show(mt), show(mt1)), flog=show(flog), fcommit=(show(fc), show(fc1)), exc=show(exc)),
                vars=dict(nmsgs=len(msgs)))
+
+
+# ---------------------------------------------------------------------------------------
+_SC_TIMES = (0.5, 2.0, 3.5, 5.0, 7.0, 9.5, 10.5, 13.5, 17.0, 20.0)
+
+
+@obligation('SC', props=('C09', 'C18'), quick=[dict(who=w) for w in ('a', 'b', 'c', None)], stubs=_STUBS,
+            bounds='3 voters a, b, c and optionally the node under test as a read-only node; log of 4 applied entries; logCompactionSplit on/off, logCompactionMinTime=10, '
+                   'logCompactionMinEntries 2 or 100, forced or not, clock from 10 instants covering every slot of two periods, last snapshot at t=0 or t=-100')
+def SC(inp, who):
+    """compaction scheduling: a tick's compaction attempt never raises - also on a read-only node, which has no id to look up
+    its slot with (C18: it keeps following); no snapshot is taken when none is due; without logCompactionSplit a due snapshot is
+    taken; with it a voter takes one only inside its own slot of the period."""
+    install_memory()
+    now = _SC_TIMES[inp.choice('now', len(_SC_TIMES))]
+    split = inp.flag('split')
+    min_entries = (2, 100)[inp.choice('min_entries', 2)]
+    others = [x for x in ('a', 'b', 'c') if x != who]
+    o, tr = so.make(who, others, so.Clock(now), inp, logCompactionSplit=split, logCompactionMinTime=10, logCompactionMinEntries=min_entries)
+    so.set_log(o, [(so.NOOP, i, 0) for i in (1, 2, 3, 4)])
+    put(o, 'raftCommitIndex', 4); put(o, 'raftLastApplied', 4)
+    last = (0.0, -100.0)[inp.choice('last_snapshot', 2)]
+    put(o, 'lastSerializedTime', last)
+    forced = inp.flag('forced')
+    if forced:
+        o.forceLogCompaction()
+    same = inp.flag('nothing_applied_since_last_snapshot')
+    if same:
+        put(o, 'lastSerializedEntry', 3)
+    _, exc = guard(getattr(o, so.P + 'tryLogCompaction'))
+    ser = get(o, 'serializer')
+    taken = ser._Serializer__inMemorySerializedData is not None
+    # nothing new since the last snapshot: only a forced compaction writes one again (it renews a stored snapshot that was replaced)
+    due = (4 > min_entries or now - last > 10 or forced) and (forced or not same)
+    cl = {'no_exception': exc is None}
+    cl['no_snapshot_when_none_is_due'] = due or not taken
+    if not split:
+        cl['due_snapshot_taken'] = taken == due
+    elif who is not None:
+        idx = ('a', 'b', 'c').index(who)
+        phase = now % 10.0
+        in_slot = idx * 10.0 / 3 <= phase < idx * 10.0 / 3 + 1.0
+        cl['voter_snapshot_only_in_own_slot'] = taken == (due and in_slot)
+    return Res(cl, nontrivial=due, obs=dict(who=who, now=now, split=split, due=due, taken=taken, exc=show(exc)))
